@@ -157,8 +157,12 @@ impl BuildJob<'_> {
             sf.save(&mut ptx)?;
             // Fall through and treat it the same as a static file.
         }
-        if Path::new(&t).exists()
-            && !Path::new(&t).join(".").is_dir()
+        // A symbolic link is a file in its own right, whatever it points at
+        // (nothing yet, or a directory): a link we did not make is left alone.
+        let t_is_link = fs::symlink_metadata(Path::new(&t))
+            .map(|m| m.file_type().is_symlink())
+            .unwrap_or(false);
+        if (t_is_link || (Path::new(&t).exists() && !Path::new(&t).join(".").is_dir()))
             && (sf.is_override || !sf.is_generated())
         {
             // an existing source file that was not generated by us.
